@@ -250,6 +250,18 @@ func (v *VLANAllocator) LoadFromStore(ctx context.Context, ntes []*NTE) error {
 			continue
 		}
 
+		// A stored pair outside the configured ranges or already held by another NTE would give
+		// two NTEs one pair: skip it (the NTE gets a fresh pair on its next Allocate)
+		if nte.STag < v.config.STagRange.Start || nte.STag > v.config.STagRange.End ||
+			nte.CTag < v.config.CTagRange.Start || nte.CTag > v.config.CTagRange.End {
+			continue
+		}
+		if holder, used := v.sTagUsage[nte.STag][nte.CTag]; used && holder != nte.ID {
+			continue
+		}
+		// An NTE loaded twice keeps only its latest pair
+		v.releaseUnlocked(nte.ID)
+
 		alloc := &VLANAllocation{
 			STag:  nte.STag,
 			CTag:  nte.CTag,
